@@ -5,7 +5,7 @@ state (real/effective/saved uid and gid, supplementary groups) with setgroups/se
 Command with `.uid / .gid / .pgroup` as requested and spawns `cat /proc/self/status`; the image's own Uid:/Gid:
 (real effective saved fs), Groups: and NSpgid: lines are the observation.
 Judge (`expect`): the kernel's rules for the steps the property promises, applied in the order do_spawn's child applies
-them (setuid, setgid, setpgid, exec) — written here without the model.  Model: `idSteps` of Model/SpawnIds.lean composed
+them (setgid, setuid, setpgid, exec; the gid first since the repair 925c7e5) — written here without the model.  Model: `idSteps` of Model/SpawnIds.lean composed
 with the protocol model `spawn` through drv_c13 `ids` (Props: spawn_ids_exact, spawn_ids_effective, spawn_ids_err,
 spawn_ids_result).
 Needs CAP_SETUID + CAP_SETGID (the sandbox runs the checks as root).  Without them the stream degrades to what is possible
@@ -51,15 +51,16 @@ def set_ids(cap, ids, x):
 
 
 def expect(u, g, sg, uid, gid, pg):
-    """THE PROPERTY: the steps the builder calls promise, by the kernel's rules, in do_spawn's order; the image's ids after
-    the exec (saved := effective, fs = effective)"""
+    """THE PROPERTY: the steps the builder calls promise, by the kernel's rules, in do_spawn's order (the gid BEFORE the uid
+    since the repair 925c7e5: the gid step still has the caller's privilege); the image's ids after the exec (saved :=
+    effective, fs = effective)"""
+    if gid is not None:
+        g = set_ids(u[1] == 0, g, gid)
+        if g is None:
+            return "res=err:1"
     if uid is not None:
         u = set_ids(u[1] == 0, u, uid)
         if u is None:
-            return "res=err:1"
-    if gid is not None:
-        g = set_ids(u[1] == 0, g, gid)   # the capability is that of the uids at THIS moment
-        if g is None:
             return "res=err:1"
     if pg == "bogus":
         return "res=err:1"
@@ -74,15 +75,10 @@ def canon_impl(o):
     return o
 
 
-def order_consequence(u, g, uid, gid, want):
-    """what the ORDER uid-then-gid costs a privileged caller (reported, not judged: the code is as it is)"""
-    if u[1] != 0 or gid is None:
-        return None
-    if want == "res=err:1" and uid not in (None, 0) and set_ids(True, u, uid) and gid not in (g[0], g[2]):
-        return "privileged caller, `.uid(u).gid(g)`: Err(EPERM) — the uid step gave the privilege away before the gid step"
-    if want.startswith("res=ok") and (" gid=%d.%d.%d." % (gid, gid, gid)) not in want:
-        return "privileged caller, `.uid(u).gid(g)`: Ok but the image's REAL gid is not g (gid step ran unprivileged)"
-    return None
+def privileged_drop(u, g, uid, gid):
+    """a privileged caller asking for a uid AND a gid: the class the order of the two steps decides (before 925c7e5 the uid
+    step came first: Err(EPERM), or Ok with the real gid unchanged)"""
+    return u[1] == 0 and uid is not None and gid is not None
 
 
 def capabilities():
@@ -191,10 +187,8 @@ def run_ids(ctx, drv, exe):
         if v:
             st["spec_failures"] += 1
             bad.setdefault(v[0], []).append((line, o, v))
-        want = expect(u, g, sg, uid, gid, pg)
-        oc = order_consequence(u, g, uid, gid, want)
-        if oc:
-            ctx.hist("identity_order_consequences(reported, the code is modelled as written)", oc)
+        if privileged_drop(u, g, uid, gid):
+            ctx.hist("identity_privileged_uid_and_gid_requests(judged: both must be exact)", "uid=%s gid=%s" % ("0" if uid == 0 else "nonzero", "real/saved" if gid in (g[0], g[2]) else "other"))
         ctx.count(("identity", u, g, tuple(sg), uid, gid, pg))
         ctx.hist("identity_uid_state(r.e.s)", "%d.%d.%d%s" % (u + (" privileged" if u[1] == 0 else " unprivileged",)))
         ctx.hist("identity_gid_state(r.e.s)", "%d.%d.%d" % g)
